@@ -1,4 +1,6 @@
 import FinProtoc.Proofs.FmtLemmas
+import FinProtoc.Proofs.VisitSafe
+import FinProtoc.Dsl.Parser
 import FinProtoc.Visit
 /-!
 # C11 — no input crashes the formatter or the compiler
@@ -9,8 +11,13 @@ ops check on every run that model and real code crash on exactly the same inputs
 * `format_no_panic` (proved, every text whatsoever): the formatter model never panics.  On the pinned
   tree this needed two hypotheses (empty tree, `@leftPad()`); both crashes were genuine, were repaired
   by `fix:` commits, and the theorem is now unconditional (DESIGN §9, KNOWN_FINDINGS.txt).
-* the visitor / generator part is decided by correspondence + crash probes only in this round
-  (the visitor model recurses through a `partial def`); DESIGN §12.
+* `visit_no_crash` (proved, every concrete syntax tree whatsoever): the visitor model (`Visit.run`:
+  `VisitPacket` ... `ResolveDependencies`) never takes one of its `throw`s - no nil dereference, no failed type
+  assertion, no index out of range, no exhausted recursion fuel.  The model is total (mutual structural recursion
+  over the nested `FieldDef`, fuel-bounded descent through the anonymous packets of inline objects); the proof
+  (`Proofs/VisitSafe.lean`) is a weakest-precondition calculus over `StateT VState (Except Crash)` and four store
+  invariants.  That the model IS the visitor is decided by the differential `model` op and the crash probes.
+* the generator part is decided by correspondence + crash probes only; DESIGN §12.
 -/
 namespace FinProtoc.Props
 open FinProtoc FinProtoc.Dsl FinProtoc.Fmt
@@ -30,5 +37,92 @@ theorem format_no_panic (L : Layout) (s : String) : ∀ c, formatWith L s ≠ .p
 theorem format_syntax_error_no_print (L : Layout) (s : String) (h : parseFull s = none) :
     formatWith L s = .syntaxError := by
   unfold formatWith; simp only [h]
+
+/-! ## The visitor model never crashes -/
+
+/-- For every concrete syntax tree the visitor model returns a model state: none of the panic sites of
+`packet_dsl_parser.go` / `model.go` that the model makes explicit (`Crash.nilDeref`, `.assert`, `.index`, `.stack`)
+is reachable.  In particular
+* `Field.GetType()` is only ever called on a field whose attribute pointer is set and valid (`@calculatedFrom`,
+  `@lengthOf` attributes; the length field in the second loop of `VisitPacketDefinition`);
+* a length / checksum field named after a MetaData entry always finds the entry's attribute;
+* the `lengthField` of a packet always holds a `LengthFieldAttribute` whose target is not nil when the second loop
+  dereferences it;
+* `resolveFields` never exhausts its fuel (the number of anonymous packets). -/
+theorem visit_no_crash (c : Dsl.Cst) : ∃ s, Visit.run c = .ok s := Visit.run_ok c
+
+/-- the same, read as "no crash of any class" -/
+theorem visit_no_crash' (c : Dsl.Cst) : ∀ e, Visit.run c ≠ .error e := by
+  intro e h
+  obtain ⟨s, hs⟩ := visit_no_crash c
+  rw [hs] at h
+  cases h
+
+/-- a text that the parser accepts is visited without a crash -/
+theorem visit_text_no_crash (text : String) (c : Dsl.Cst) (_ : parseFull text = some c) :
+    ∃ s, Visit.run c = .ok s := visit_no_crash c
+
+/-! ### Non-vacuity: the guarded sites are exercised and the run ends in `.ok`
+
+A MetaData-typed field (`MsgType`), a length field named after a MetaData entry (`BodyLen @lengthOf(Body)`:
+site 2, then sites 1 and 3 in the second loop), an inline object (`Head { .. }`: `resolveFields` descends with
+fuel 1) and a match field (`Body`). -/
+
+private def tk (k : TK) (s : String) (l : Nat) : Tok := { kind := k, text := s, line := l, col := 0 }
+private def cm (l : Nat) : Tok := tk .comma "," l
+
+/-- `MetaData Common { u16 MsgType, u32 BodyLen, }  root packet Msg { MsgType, BodyLen @lengthOf(Body), Head { u8 Ver, },
+match MsgType as Body { 1 : Logon, }, }  packet Logon { string User, }` -/
+private def exCst : Cst := { defs := [
+  .metaD { kw := tk .metadata "MetaData" 1, name := tk .ident "Common" 1, lb := tk .lbrace "{" 1,
+           entries := [.decl { ty := .basic (tk .uint16 "u16" 2), name := tk .ident "MsgType" 2, doc := none, comma := cm 2 },
+                       .decl { ty := .basic (tk .uint32 "u32" 3), name := tk .ident "BodyLen" 3, doc := none, comma := cm 3 }],
+           rb := tk .rbrace "}" 4 },
+  .packet { root := some (tk .root "root" 5), kw := tk .packet "packet" 5, name := tk .ident "Msg" 5, lb := tk .lbrace "{" 5,
+            fields := [
+              { attrs := [], fd := .obj none (tk .ident "MsgType" 6) none none (cm 6) },
+              { attrs := [], fd := .len { ty := none, name := tk .ident "BodyLen" 7,
+                                          attr := { kw := tk .lengthOf "@lengthOf(" 7, from_ := tk .ident "Body" 7, rp := tk .rparen ")" 7 },
+                                          doc := none, comma := cm 7 } },
+              { attrs := [], fd := .iner none (tk .ident "Head" 8) (tk .lbrace "{" 8)
+                                     [.metaF none { ty := .basic (tk .uint8 "u8" 9), name := tk .ident "Ver" 9, doc := none, comma := cm 9 }]
+                                     (tk .rbrace "}" 10) (cm 10) },
+              { attrs := [], fd := .match_ { kw := tk .match_ "match" 11, key := tk .ident "MsgType" 11, as_ := tk .kwAs "as" 11,
+                                             name := tk .ident "Body" 11, lb := tk .lbrace "{" 11,
+                                             pairs := [{ key := .single (tk .digits "1" 12), colon := tk .colon ":" 12,
+                                                         target := tk .ident "Logon" 12, comma := some (cm 12) }],
+                                             rb := tk .rbrace "}" 13 } (cm 13) }],
+            rb := tk .rbrace "}" 14 },
+  .packet { root := none, kw := tk .packet "packet" 15, name := tk .ident "Logon" 15, lb := tk .lbrace "{" 15,
+            fields := [{ attrs := [], fd := .metaF none { ty := .dyn (tk .string "string" 16), name := tk .ident "User" 16, doc := none, comma := cm 16 } }],
+            rb := tk .rbrace "}" 17 }] }
+
+/-- evaluated by the kernel: `.ok`, no diagnostic, two packets and one anonymous packet, the root packet's length
+field `BodyLen` with its target resolved, and nine attribute objects -/
+example : (match Visit.run exCst with
+    | .ok s => s.diags.isEmpty && s.packets.length == 2 && s.ipackets.size == 1 && s.attrs.size == 9 &&
+        (s.packets.map (·.lengthField)) == [some "BodyLen", none] &&
+        s.attrs.toList.contains (.length "u32" (some "Body")) &&
+        s.attrs.toList.contains (.object true "Head" (.inline 0))
+    | .error _ => false) = true := by
+  decide +kernel
+
+private def exText : String :=
+  "MetaData Common {\n u16 MsgType,\n u32 BodyLen,\n}\nroot packet Msg {\n MsgType,\n BodyLen @lengthOf(Body),\n Head {\n u8 Ver,\n },\n match MsgType as Body {\n 1 : Logon,\n },\n}\npacket Logon {\n string User,\n}\n"
+
+/-- the same program as text, through lexer and parser (kernel-evaluated as well) -/
+example : ((parseFull exText).map fun c =>
+    match Visit.run c with
+    | .ok s => s.diags.isEmpty && s.packets.length == 2 && s.ipackets.size == 1
+    | .error _ => false) = some true := by
+  decide +kernel
+
+/-- a program that is NOT well formed (unknown length target, unknown match key, unknown match target, length field
+in an inline object) is diagnosed four times, not crashed on -/
+example : ((parseFull "root packet P {\n u16 L @lengthOf(Nope),\n In {\n u8 A @lengthOf(B),\n match Zz as B {\n 1 : Q,\n },\n },\n}\n").map fun c =>
+    match Visit.run c with
+    | .ok s => s.diags.length
+    | .error _ => 0) = some 4 := by
+  decide +kernel
 
 end FinProtoc.Props
